@@ -653,6 +653,8 @@ class C07(Spec):
         "allocImpl_fuel_sufficient", "allocImpl_cons_eq",
         "select_accepted_valid", "select_conflicting_iff", "select_ambiguous_iff",
         "select_conflicting_iff_none_valid", "select_accepted_unique", "accept_iff_unique_partial",
+        "alloc_nodup", "alloc_dup_same_pack_twice", "alloc_dup_same_track_twice",
+        "select_ambiguous_iff_two_valid", "select_accepted_iff_unique_valid", "accept_iff_unique",
     ))
     trusted_base = (
         "model Earverif/Model/PackAlloc.lean is a hand transliteration of pack_allocation.allocate_packs, "
@@ -665,7 +667,9 @@ class C07(Spec):
         "completeness / no-duplicates are compared only on well-formed problems: every AllocationPack has at least one "
         "channel and the channel formats within one pack are distinct (what validate_structure guarantees); the real "
         "code is also run at the excluded points and what happens is recorded in the distribution (not a failure)",
-        "all AllocationPack / AllocationTrack objects in the input lists are distinct objects",
+        "all AllocationPack / AllocationTrack objects in the input lists are distinct objects (WF.packs_nodup, "
+        "WF.tracks_nodup: hypotheses of alloc_nodup; the real code is run with a repeated object and the duplicates it "
+        "then reports are recorded)",
     )
     rule = (
         "allocation problems (pack patterns with nested-pack alternatives and repeated roots, tracks, pack refs or None, "
@@ -727,8 +731,44 @@ class C07(Spec):
             ctx.count("excluded-kind:" + kind)
         self._run(ctx, [p for p, _ in exc], "excluded-points")
         self._excluded_record(ctx, [p for p, _ in exc])
+        self._excluded_identity(ctx)
         self._valid_crosscheck(ctx, [p for p, _ in exc][:300] + [seeded_problem(rng) for _ in range(300)])
         self._select(ctx, 1500 if ctx.quick else 12000)
+
+    def _excluded_identity(self, ctx):
+        """excluded points of alloc_nodup (WF.packs_nodup / WF.tracks_nodup): the same AllocationPack object or the
+        same AllocationTrack object listed twice. The real code is run there and what it does is recorded (never a
+        failure); the Lean theorems alloc_dup_same_pack_twice / alloc_dup_same_track_twice show the same for the model."""
+        from ear.core.select_items.pack_allocation import allocate_packs
+
+        def canon(sols, rp, rt):
+            return [show_real_solution(s, rp, rt, False) for s in sols]
+
+        # the two fixed instances of the theorems
+        rp, rt, _rr, _ns = build_real((((10, ((1, (10,)),)),), (), None, 1))
+        c = canon(list(allocate_packs([rp[0], rp[0]], [], None, 1)), rp, rt)
+        ctx.count("excluded: same pack object twice, 1 silent -> %d solutions, %d distinct" % (len(c), len(set(c))))
+        rp, rt, _rr, _ns = build_real((((10, ((1, (10,)),)), (10, ((1, (10,)),))), ((1, 10),), None, 0))
+        c = canon(list(allocate_packs(rp, [rt[0], rt[0]], None, 0)), rp, rt)
+        ctx.count("excluded: same track object twice, two 1-channel packs -> %d solutions, %d distinct" % (len(c), len(set(c))))
+        # random: duplicate one pack object / one track object of a solvable problem
+        n = dup_p = dup_t = 0
+        for _ in range(150 if ctx.quick else 3000):
+            prob = seeded_problem(ctx.rng, max_tracks=5)
+            if py_brute(prob) is None or not is_wf(prob):
+                continue
+            rp, rt, rr, ns = build_real(prob)
+            n += 1
+            i = ctx.rng.randrange(len(rp))
+            c = canon(list(itertools.islice(allocate_packs(rp + [rp[i]], rt, rr, ns), 5000)), rp, rt)
+            dup_p += len(set(c)) < len(c)
+            if rt:
+                j = ctx.rng.randrange(len(rt))
+                c = canon(list(itertools.islice(allocate_packs(rp, rt + [rt[j]], rr, ns), 5000)), rp, rt)
+                dup_t += len(set(c)) < len(c)
+        ctx.count("excluded: pack object repeated (random): runs", n)
+        ctx.count("excluded: pack object repeated (random): duplicates reported", dup_p)
+        ctx.count("excluded: track object repeated (random): duplicates reported", dup_t)
 
     def _valid_crosscheck(self, ctx, probs):
         """Lean `decide (Valid prob sol)` on every model solution and Lean `decide (WF prob)` vs the harness's own
@@ -807,24 +847,29 @@ class C07(Spec):
 SPEC = C07()
 
 REGISTRY = dict(
-    text="PARTIAL: Lean theorems about the model of allocate_packs (Earverif.PackAlloc): alloc_sound - every yielded "
-    "allocation satisfies every bullet point of the docstring (all problems); alloc_complete - for well-formed problems "
-    "(packs with >= 1 channel, channel formats distinct within a pack) every allocation satisfying the docstring is "
-    "yielded up to the order of the AllocatedPacks, i.e. the pruning tests, the 'obvious' step and the silent-track "
-    "rules lose nothing; alloc_incomplete_without_WF - the excluded point really loses a solution; "
-    "allocImpl_fuel_sufficient - the recursion bound of the model is enough; select_conflicting_iff_none_valid, "
-    "select_accepted_unique, accept_iff_unique_partial - select_pack_mapping says Conflicting exactly when no "
-    "allocation is permitted, accepts only when all permitted allocations are equivalent, and never accepts when two "
-    "inequivalent ones exist. NOT proved: alloc_nodup (no two yielded allocations are equivalent) and hence "
-    "'Ambiguous implies two inequivalent permitted allocations'; this gap is searched: the real output is compared "
-    "as a multiset with a Lean brute-force enumerator of Valid and with an independent Python brute force "
-    "(exhaustive small universe + random + solution-seeded problems). The model is tied to the code on every run "
-    "(same solutions in the same yield order; ADM-level accepted/Conflicting/Ambiguous outcome).",
+    text="FULL: Lean theorems about the model of allocate_packs / select_pack_mapping (Earverif.PackAlloc), for every "
+    "allocation problem: alloc_sound - every yielded allocation satisfies every bullet point of the docstring (no "
+    "hypothesis); alloc_complete - every allocation satisfying the docstring is yielded up to the order of the "
+    "AllocatedPacks (the pruning tests, the 'obvious' step and the silent-track rules lose nothing); alloc_nodup - no "
+    "two yielded allocations are equivalent (the branches are disjoint; silent-track canonicalisation keeps one "
+    "representative); accept_iff_unique - select_pack_mapping accepts exactly when one equivalence class of permitted "
+    "allocations exists, says Conflicting exactly when none and Ambiguous exactly when at least two inequivalent ones; "
+    "allocImpl_fuel_sufficient - the recursion bound of the model is enough (termination). Hypothesis WF of "
+    "complete/nodup/accept_iff_unique: every AllocationPack has >= 1 channel with pairwise distinct channel formats "
+    "(needed for completeness), AllocationPack objects and AllocationTrack objects are distinct (needed for nodup); "
+    "each excluded point is shown to be necessary by a theorem (alloc_incomplete_without_WF, "
+    "alloc_dup_same_pack_twice, alloc_dup_same_track_twice) and the real code is run there and recorded. The model is "
+    "tied to the code on every run: same solutions in the same yield order as list(allocate_packs(...)), the real "
+    "output equals (as a multiset) a Lean brute-force enumerator of Valid and an independent Python brute force "
+    "written from the docstring, and the ADM-level accepted/Conflicting/Ambiguous outcome of select_pack_mapping "
+    "equals the model's (exhaustive small universe + uniform + solution-seeded problems up to 8 tracks).",
     note="Trusted: Lean kernel, hand transliteration + correspondence harness, rendering of the docstring as Valid "
-    "(cross-checked against the Python brute force). Quantifier limits: packs with >= 1 channel and distinct channel "
-    "formats per pack for completeness/no-duplicates (what validate_structure guarantees); at the excluded point the "
-    "real code reports an ambiguity as unique (recorded, not alarmed).",
+    "(cross-checked against the Python brute force). Quantifier limits (WF): packs with >= 1 channel and distinct "
+    "channel formats per pack, distinct pack/track objects - what validate_structure and _PackAllocator guarantee; "
+    "at the excluded points the real code reports an ambiguity as unique / reports duplicates (recorded, not alarmed). "
+    "'Each channel exactly once' is read as 'in pack.channels order', which is what the code returns.",
     technique="Lean 4 invariant proofs over the recursive search (soundness: accounting invariant; completeness: "
-    "target-following invariant) + differential correspondence with allocate_packs + brute-force spec enumerators",
+    "target-following invariant; no-duplicates: in-place extension + disjoint branches) + differential "
+    "correspondence with allocate_packs / select_pack_mapping + brute-force spec enumerators",
     design_ref="DESIGN.md section 4, C07",
 )
